@@ -187,7 +187,7 @@ func main() {
 
 func checkProgram(ps progSpec, bt batch) *progResult {
 	res := &progResult{Sub: ps.Sub}
-	prog := idl.Generate(rand.New(rand.NewSource(ps.Seed)), cfgByName(ps.Cfg))
+	prog := idl.GenerateNamed(ps.Seed, ps.Cfg)
 	res.Features = prog.FeatureList()
 	addV := func(sig, what string, w interface{}) {
 		for _, v := range res.Violations {
